@@ -31,7 +31,8 @@ class SymbolicTensor:
         """
         if axes is None:
             axes = reversed(range(self.ndim))
-        if len(set(axes)) != len(axes):
+        axes = list(axes)
+        if sorted(axes) != list(range(self.ndim)):
             raise ValueError(f"axes = {axes} is not a valid permutation")
         self.shape = tuple(self.shape[ax] for ax in axes)
         self.bids  =       [self.bids[ax] for ax in axes]
